@@ -400,7 +400,8 @@ class ServerWorld(Base):
         if s is None:
             return False
         late = c in self.disc or not is_open(s)
-        self.written[c] += nbytes
+        if not late:
+            self.written[c] += nbytes
         self.log('lwrite' if late else 'swrite', c, z)
         self.root.fire(write(s, b'w' * nbytes), 'c12srv')
         return True
